@@ -20,7 +20,18 @@ def addd(x, y=10): return x + y
 """
 
 
+PLACEHOLDERS = {"U+E9": "\u00e9", "U+3042": "\u3042", "U+1F600": "\U0001F600"}
+
+
+def conc(s):
+    """concretise the placeholders TLA+ strings use for non-ASCII characters"""
+    for k, v in PLACEHOLDERS.items():
+        s = s.replace(k, v)
+    return s
+
+
 def erg_str(s):
+    s = conc(s)
     return '"' + s.replace("\\", "\\\\").replace('"', '\\"') + '"'
 
 
@@ -62,8 +73,13 @@ def to_erg(prog, prelude=True):
             L.append(f"{v} = " + f % a)
         elif k == "loop":
             L.append(f"acc{n} = !0\nfor! 0..<v{a}, i =>\n    acc{n}.update! s -> s + i\n{v} = acc{n} + 0")
-        elif k == "wloop":
-            L.append(f"cnt{n} = !0\nwhile! do! cnt{n} < v{a}, do!:\n    cnt{n}.inc!()\n{v} = cnt{n} + 0")
+        elif k in ("wloop", "wloople"):
+            rel = "<" if k == "wloop" else "<="
+            L.append(f"cnt{n} = !0\nwhile! do! cnt{n} {rel} v{a}, do!:\n    cnt{n}.inc!()\n{v} = cnt{n} + 0")
+        elif k == "ublock":
+            L.append(f"u{n} =\n    w{n} = v{a} // v{b}\n    2")
+        elif k == "ublockp":
+            L.append(f"u{n} =\n    print! {erg_str(s)}\n    2")
         elif k == "lmk":
             L.append(f"{v} = [v{a}, v{b}]")
         elif k == "lcat":
@@ -91,13 +107,13 @@ def to_py(prog):
         elif k == "flit":
             L.append(f"{v} = {flt(a, b)}")
         elif k == "slit":
-            L.append(f"{v} = {s!r}")
+            L.append(f"{v} = {conc(s)!r}")
         elif k in ("bin", "cmp", "scat"):
             L.append(f"{v} = v{a} {op} v{b}")
         elif k == "interp":
-            L.append(f"{v} = str(v{a}) + {s!r}")
+            L.append(f"{v} = str(v{a}) + {conc(s)!r}")
         elif k == "uprint":
-            L.append(f"u{n} = print({s!r})")
+            L.append(f"u{n} = print({conc(s)!r})")
         elif k == "print":
             L.append(f"print(v{a})")
         elif k == "ifp":
@@ -107,8 +123,13 @@ def to_py(prog):
             L.append(f"{v} = " + f % a)
         elif k == "loop":
             L.append(f"{v} = 0\nfor i in range(v{a}):\n    {v} = {v} + i")
-        elif k == "wloop":
-            L.append(f"{v} = 0\nwhile {v} < v{a}:\n    {v} += 1")
+        elif k in ("wloop", "wloople"):
+            rel = "<" if k == "wloop" else "<="
+            L.append(f"{v} = 0\nwhile {v} {rel} v{a}:\n    {v} += 1")
+        elif k == "ublock":
+            L.append(f"w{n} = v{a} // v{b}\nu{n} = 2")
+        elif k == "ublockp":
+            L.append(f"print({conc(s)!r})\nu{n} = 2")
         elif k == "lmk":
             L.append(f"{v} = [v{a}, v{b}]")
         elif k == "lcat":
